@@ -253,6 +253,25 @@ func (t tuple) shape() string {
 
 func parse(c *ctx, raw string) (u *transport.URL, err error, panicked bool) {
 	panicked = vrt.Guard(c.o, func() { u, err = transport.ParseURL(raw) })
+	// every fourth URL is parsed a second time and THAT value is edited by its owner, as applications do before they
+	// dial (set a host, a baud rate, append a digipeater): what one caller does to its URL value must not show in the
+	// value any later call hands out
+	if c.nParsed++; c.nParsed%4 == 0 && !panicked && err == nil && !c.noEdit {
+		vrt.Guard(c.o, func() {
+			if u2, err2 := transport.ParseURL(raw); err2 == nil && u2 != nil {
+				if u2.Params != nil {
+					u2.Params.Set("host", "/dev/ttyEDITED")
+					u2.Params.Set("hbaud", "9600")
+				}
+				u2.Digis = append(u2.Digis, "EDITED-1")
+				if len(u2.Digis) > 1 {
+					u2.Digis[0] = "EDITED-0"
+				}
+				u2.Target, u2.Host = "EDITED", "edited.example:1"
+				c.o.Count("url_values_edited_by_their_owner", 1)
+			}
+		})
+	}
 	return
 }
 
